@@ -4,7 +4,11 @@
 From CRNG Require Import Base.Bytes Lib.Fnv.
 Local Open Scope nat_scope.
 
-Definition shard_of (conc : N) (name : bytes) : N := (fnv32a name mod conc)%N.
+(* Dispatch: the shard of a series key name;tag;tag...: the sum (uint32, wrapping) of the fnv32a hashes of the name and of
+   each tag, so that the order in which a client lists the tags does not matter (as repaired; it was the hash of the whole key) *)
+Definition series_hash (key : bytes) : N :=
+  fold_right (fun part acc => ((fnv32a part + acc) mod 4294967296)%N) 0%N (split_on 59 key).
+Definition shard_of (conc : N) (key : bytes) : N := (series_hash key mod conc)%N.
 
 (* what the endpoint answers to one POST *)
 Inductive outcome := Ok2xx | Http4xx | Http5xx | Timeout | Reset.
